@@ -16,7 +16,7 @@ pub fn check_input(l: &mut Local, data: &[u8], tag: &str) {
     let (d0, dn, st) = refctph::digest_pair(data);
     l.eval(1);
     // cross-check of the oracle by the naive definition
-    if data.len() <= NAIVE_MAX {
+    if data.len() <= NAIVE_MAX && !bytes::tiny() {
         let nv = naive::hash(data);
         if nv.text_trunc != d0 || nv.text_notrunc != dn {
             l.inconclusive(format!(
